@@ -2199,6 +2199,9 @@ def imap_match(pattern, name):
     return m(0, 0)
 
 
+_LIST_EXT = re.compile(r'^(?:\((?P<sel>[^)]*)\) )?"(?P<ref>[^"]*)" (?:\((?P<pats>[^)]*)\)|"(?P<p1>[^"]*)")(?: RETURN \((?P<ret>.*)\))?$')
+
+
 class NamespaceOps:
     def ns_expected_list(self, ref, pat, lsub=False):
         full = ref + pat
@@ -2238,7 +2241,10 @@ class NamespaceOps:
         else:
             line = f"{verb} {quote(ref)} {quote(pat)}"
         r = await self.run_cmd(sess, ms, line)
-        if r.status is None or not self.compare or ext or not r.ok:
+        if r.status is None or not self.compare or not r.ok:
+            return
+        if ext:
+            self.check_list_extended(ext, line, r)
             return
         if pat == "" :
             return
@@ -2268,6 +2274,57 @@ class NamespaceOps:
                 if want != have:
                     self.V("C17", "list_attr_wrong", cmd=line, name=n, expected=sorted(want), got=sorted(have))
                     break
+
+
+    def check_list_extended(self, ext, line, r):
+        """LIST-EXTENDED: selection options filter the names, they never change what is true about a
+        mailbox that is listed - \\HasChildren exactly when an existing mailbox lies below it."""
+        m = _LIST_EXT.match(ext)
+        if not m:
+            return
+        sel = set((m.group("sel") or "").upper().split())
+        ret = (m.group("ret") or "").upper()
+        pats = [m.group("p1")] if m.group("p1") is not None else re.findall(r'"([^"]*)"', m.group("pats") or "")
+        ref = m.group("ref") or ""
+        got = {}
+        for name, attrs in self.parse_list(r, "LIST"):
+            got[("INBOX" if name.upper() == "INBOX" else name)] = set(attrs)
+        self.C("c17_list_extended")
+        # (1) attributes of whatever is listed
+        for n in sorted(got):
+            key = "inbox" if n == "INBOX" else n
+            box = self.model.boxes.get(key)
+            if box is None:
+                continue  # a name the model does not have is judged by the name comparison below
+            want = {"\\haschildren" if self.model.children(key) else "\\hasnochildren"}
+            if box.noselect:
+                want.add("\\noselect")
+            have = {a for a in got[n] if a in ("\\noselect", "\\haschildren", "\\hasnochildren")}
+            if want != have:
+                self.V("C17", "list_attr_wrong", cmd=line, name=n, expected=sorted(want), got=sorted(have))
+                return
+            if "SUBSCRIBED" in sel or "SUBSCRIBED" in ret:
+                if ("\\subscribed" in got[n]) != bool(box.subscribed):
+                    self.V("C17", "list_attr_wrong", cmd=line, name=n, expected=["\\subscribed"] if box.subscribed else [], got=sorted(got[n]))
+                    return
+        # (2) the set of names, for the selections with a plain meaning
+        if "RECURSIVEMATCH" in sel or any(p_ == "" for p_ in pats):
+            return
+        exp, dontcare = set(), set()
+        for p_ in pats:
+            e_ = self.ns_expected_list(ref, p_, lsub=False)
+            for n, a in e_.items():
+                (dontcare if a is None else exp).add(n)
+        if "SUBSCRIBED" in sel:
+            exp = {n for n in exp if self.model.boxes[("inbox" if n == "INBOX" else n)].subscribed}
+        if "SPECIAL-USE" in sel:
+            exp = {n for n in exp if n in SPECIAL_USE}
+        missing = sorted(exp - set(got))
+        extra = sorted(set(got) - exp - dontcare)
+        if missing:
+            self.V("C17", "list_missing", cmd=line, missing=missing, got=sorted(got))
+        if extra:
+            self.V("C17", "list_extra", cmd=line, extra=extra, expected=sorted(exp))
 
     async def op_lsub(self, op):
         await self.op_list(dict(op, lsub=True))
